@@ -3,14 +3,18 @@ package main
 // components "flow-C01".."flow-C16": a real Executor (executor.New(WithConfig)) over harness-owned source and nodes runs a
 // generated tree on a generated stream; the per-node observations are printed for the Lean Flow model and trace monitor.
 // input: "tree <seed> <nroots> N <kind> <workers> <buf> <discard> <disabled> <wP> <wT> <wF> <wE> <maxFan> <amode> <latUs> <nc> <hh> ... ;
-//         stream <n> ; opts stop=<k|-> gm=<GOMAXPROCS>"
+//         stream <n> ; opts stop=<k|-> gm=<GOMAXPROCS> [sig=1] [gate=<idx>]"
+// stop=k: shutdown is requested when the source emits its k-th event — by Executor.Shutdown(), or with sig=1 by a SIGTERM
+// delivered to the process (the executor's signal handler)
 
 import (
 	"fmt"
+	"os"
 	"runtime"
 	"sort"
 	"strconv"
 	"strings"
+	"syscall"
 	"time"
 
 	"github.com/digitalocean/firebolt/config"
@@ -97,6 +101,8 @@ func genFlow(prop string, r *rng, n int, tier string, emit func(string)) {
 		"tree 7 1 N sync 1 1 0 0 100 0 0 0 1 0 0 0 0 ; stream 5 ; opts stop=- gm=4",
 		"tree 11 2 N sync 2 1 0 0 40 20 20 20 1 0 50 2 1 N fanout 1 2 0 0 20 10 10 10 3 0 0 1 0 N async 3 1 0 0 50 10 20 20 1 1 100 0 1 N hasync 2 1 0 0 80 0 10 10 1 2 0 0 0 N async 1 1 0 0 60 0 20 20 1 2 0 0 0 N hsync 1 1 0 0 100 0 0 0 1 0 0 0 0 N sync 1 1 0 1 100 0 0 0 1 0 0 1 0 N sync 1 1 0 0 100 0 0 0 1 0 0 0 0 ; stream 40 ; opts stop=- gm=4",
 		"tree 13 1 N fanout 2 1 0 0 10 10 10 10 3 0 0 2 0 N sync 1 1 0 0 100 0 0 0 1 0 200 0 0 N async 2 1 0 0 50 0 25 25 1 3 0 0 0 ; stream 30 ; opts stop=17 gm=2",
+		// shutdown requested by a signal while the main loop is held up by a slow root; the other root is fast
+		"tree 29 2 N sync 1 1 0 0 100 0 0 0 1 0 300 0 0 N sync 1 1 0 0 100 0 0 0 1 0 0 0 0 ; stream 40 ; opts stop=9 sig=1 gm=4",
 	} {
 		emit(c)
 	}
@@ -130,6 +136,9 @@ func genFlow(prop string, r *rng, n int, tier string, emit func(string)) {
 		stop := "-"
 		if r.chance(30) && ns > 0 {
 			stop = strconv.Itoa(r.intn(ns))
+			if r.chance(40) {
+				stop += " sig=1"
+			}
 		}
 		gate := ""
 		if prop == "C04" && r.chance(35) {
@@ -238,6 +247,7 @@ func execFlow(input string) string {
 	stop := -1
 	gm := 4
 	gateIdx := -1
+	bySignal := false
 	for _, seg := range segs[1:] {
 		f := strings.Fields(seg)
 		if len(f) == 2 && f[0] == "stream" {
@@ -253,6 +263,9 @@ func execFlow(input string) string {
 				}
 				if strings.HasPrefix(o, "gate=") {
 					gateIdx, _ = strconv.Atoi(strings.TrimPrefix(o, "gate="))
+				}
+				if o == "sig=1" {
+					bySignal = true
 				}
 			}
 		}
@@ -283,6 +296,10 @@ func execFlow(input string) string {
 		return "harness-error " + err.Error()
 	}
 	src.stopFn = func() { ex.Shutdown() }
+	if bySignal {
+		// the executor registered its signal handler in New; the signal reaches this process only
+		src.stopFn = func() { _ = syscall.Kill(os.Getpid(), syscall.SIGTERM) }
+	}
 	done := make(chan struct{})
 	go func() {
 		ex.Execute()
